@@ -1841,6 +1841,22 @@ func (ctx *RenderContext) equals(a, b interface{}) bool {
 	return ctx.ToString(a) == ctx.ToString(b)
 }
 
+// isDecimalNumeral reports whether s is written with digits, a sign, a decimal point
+// and an exponent only
+func isDecimalNumeral(s string) bool {
+	digits := false
+	for i := 0; i < len(s); i++ {
+		switch c := s[i]; {
+		case c >= '0' && c <= '9':
+			digits = true
+		case c == '+' || c == '-' || c == '.' || c == 'e' || c == 'E':
+		default:
+			return false
+		}
+	}
+	return digits
+}
+
 // toNumber converts a value to a float64, returning ok=false if not possible
 func (ctx *RenderContext) toNumber(val interface{}) (float64, bool) {
 	if val == nil {
@@ -1873,7 +1889,12 @@ func (ctx *RenderContext) toNumber(val interface{}) (float64, bool) {
 	case float64:
 		return v, true
 	case string:
-		// Try to parse as float64
+		// Try to parse as float64. Only decimal numerals count: ParseFloat also
+		// accepts the words "nan", "inf" and "infinity" and hexadecimal floats, and
+		// text like that must stay text ('nan' == 'nan', 'inf' != 'Infinity')
+		if !isDecimalNumeral(v) {
+			return 0, false
+		}
 		if f, err := strconv.ParseFloat(v, 64); err == nil {
 			return f, true
 		}
